@@ -12,9 +12,9 @@
 (* declarative (per-denomination totals) and are checked by TLC on every   *)
 (* transition (C09).                                                       *)
 (***************************************************************************)
-EXTENDS Integers, Sequences, FiniteSets, SequencesExt, TLC, Json
+EXTENDS BankOps, FiniteSets, SequencesExt, TLC, Json
 
-CONSTANTS Accounts, Denoms,
+CONSTANTS Accounts,
           CoinLists,   \* the set of coin lists tried: sequences of <<denom, amount>>
           Cap          \* state constraint: no supply above Cap (mints beyond it are not tried)
 
@@ -27,44 +27,6 @@ vars == <<bal, supply, last, hist>>
 view == <<bal, supply, last>>
 
 NoOp == [a |-> "none"]
-
-RECURSIVE Tot(_, _)
-(* total amount of denomination d in a coin list *)
-Tot(coins, d) == IF coins = <<>> THEN 0
-                 ELSE (IF Head(coins)[1] = d THEN Head(coins)[2] ELSE 0) + Tot(Tail(coins), d)
-
-NonZero(coins) == SelectSeq(coins, LAMBDA c : c[2] # 0)
-
-(* NativeBalance - Vec<Coin>: coin by coin; result [ok, b] *)
-RECURSIVE SubCoins(_, _)
-SubCoins(b, coins) ==
-    IF coins = <<>> THEN [ok |-> TRUE, b |-> b]
-    ELSE LET c == Head(coins) IN
-         IF b[c[1]] < c[2] THEN [ok |-> FALSE, b |-> b]
-         ELSE SubCoins([b EXCEPT ![c[1]] = @ - c[2]], Tail(coins))
-
-RECURSIVE AddCoins(_, _)
-AddCoins(b, coins) ==
-    IF coins = <<>> THEN b
-    ELSE AddCoins([b EXCEPT ![Head(coins)[1]] = @ + Head(coins)[2]], Tail(coins))
-
-(* BankKeeper::burn / ::mint on a balance table; result [ok, bal] *)
-BurnFrom(tbl, acc, coins) ==
-    LET nz == NonZero(coins) IN
-    IF nz = <<>> THEN [ok |-> FALSE, bal |-> tbl]
-    ELSE LET r == SubCoins(tbl[acc], nz) IN
-         IF r.ok THEN [ok |-> TRUE, bal |-> [tbl EXCEPT ![acc] = r.b]]
-         ELSE [ok |-> FALSE, bal |-> tbl]
-
-MintTo(tbl, acc, coins) ==
-    LET nz == NonZero(coins) IN
-    IF nz = <<>> THEN [ok |-> FALSE, bal |-> tbl]
-    ELSE [ok |-> TRUE, bal |-> [tbl EXCEPT ![acc] = AddCoins(tbl[acc], nz)]]
-
-(* BankKeeper::send: burn from the sender, then mint to the recipient *)
-SendFromTo(tbl, from, to, coins) ==
-    LET r == BurnFrom(tbl, from, coins) IN
-    IF r.ok THEN MintTo(r.bal, to, coins) ELSE r
 
 -----------------------------------------------------------------------------
 Init == /\ bal = [a \in Accounts |-> [d \in Denoms |-> 0]]
